@@ -781,6 +781,26 @@ fn case<S: ShortGroupSignatureScheme>(v: &Value) -> Value {
                     }
                 }
             }
+            // (2b) byte proofs of the decryptable encryptions: (resp_i - resp_0)/challenge as a vector
+            {
+                let diffs = |q: &Presentation<S>, id: &String| -> Option<Vec<Scalar>> {
+                    let (msgs, c): (Vec<Scalar>, Scalar) = match q.proofs.get(id)? {
+                        PresentationProofs::VerifiableEncryption(vp) => (vp.decryptable_scalar_proof.as_ref()?.byte_proofs.iter().map(|b| b.message).collect(), q.challenge),
+                        PresentationProofs::VerifiableEncryptionDecryption(vp) => (vp.byte_proofs.iter().map(|b| b.message).collect(), q.challenge),
+                        _ => return None,
+                    };
+                    let ci = Option::<Scalar>::from(c.invert())?;
+                    Some(msgs.iter().skip(1).map(|m| (*m - msgs[0]) * ci).collect())
+                };
+                for (id, _) in p.proofs.iter() {
+                    if let (Some(d1), Some(d2)) = (diffs(&p, id), diffs(&p2, id)) {
+                        let same = d1.iter().zip(d2.iter()).filter(|(a, b)| a == b).count();
+                        if same > 0 && diffs(&p3, id).map(|d3| d3 != d1).unwrap_or(true) {
+                            links.push(json!({"test": "(byte_resp_i - byte_resp_0)/challenge repeats across presentations", "stmt": id, "equal_components": same}));
+                        }
+                    }
+                }
+            }
             // (3) pairing cross-ratio e(P_a, Q_b) == e(P_b, Q_a) for G1 leaves P and G2 leaves Q at equal positions
             let g1 = |b: &Vec<u8>| -> Option<G1Affine> { let a: [u8; 48] = b.clone().try_into().ok()?; Option::<G1Affine>::from(G1Affine::from_compressed(&a)) };
             let g2 = |b: &Vec<u8>| -> Option<G2Affine> { let a: [u8; 96] = b.clone().try_into().ok()?; Option::<G2Affine>::from(G2Affine::from_compressed(&a)) };
